@@ -253,6 +253,17 @@ def run_shard(spec, R):
             )
             if k == 0:
                 R.sample({"image": desc, "grid_shape": list(g.shape)})
+            # the same image object after its resolution was changed in place (every second voxel along the last spatial
+            # axis kept): the grid asked for now is the grid of the image as it is now
+            if shp[dim - 1] >= 2:
+                sl_ = tuple([slice(None)] * (dim - 1) + [slice(None, None, 2)])
+                img.img = img.img[sl_].copy()
+                new_shape = tuple(img.img.shape[:dim])
+                ok, g2 = R.guarded("grid_constructible", lambda: darsia.generate_grid(img))
+                if ok:
+                    R.check(tuple(int(v) for v in g2.shape) == new_shape and np.allclose(np.asarray(g2.voxel_size, float), np.array(desc["dimensions"]) / np.array(new_shape), rtol=1e-14),
+                            "image_grid_matches_image", {**desc, "what": "image coarsened in place, grid generated again", "grid_shape": [int(v) for v in g2.shape], "image_shape_now": list(new_shape)})
+                    R.count("grid_of_image_changed_in_place")
     # ---- call histories of generate_grid: images that agree in dimensionality, total voxel count and
     # physical dimensions but differ in shape, in random order and with repetitions (a memoised or
     # otherwise stale grid would show up on a later call)
